@@ -36,7 +36,7 @@ func init() {
 		Finish:         finish,
 		MinEvaluations: map[string]int{"quick": 3000000, "thorough": 250000000},
 		MinNontrivial:  map[string]int{"quick": 500000, "thorough": 10000000},
-		RequiredObs:    []string{"aut>1", "rep:dense", "rep:sparse", "library_path_checked", "large_cell_graphs(n>=21)", "big_cell_cases", "earlier_result_rechecked_after_next_call"},
+		RequiredObs:    []string{"aut>1", "rep:dense", "rep:sparse", "library_path_checked", "large_cell_graphs(n>=21)", "big_cell_cases", "perturbed_symmetric_graphs_checked", "circulants_with_one_edge_toggled", "earlier_result_rechecked_after_next_call"},
 	})
 }
 
@@ -354,6 +354,110 @@ func run(c *engine.Ctx) {
 				c.Sample("families", map[string]interface{}{"name": f.Name, "n": f.G.N, "m": f.G.M(), "aut": aut.String(), "relabellings": k})
 			}
 		})
+	}
+
+	// (c2) locally perturbed symmetric graphs: a structured family member with one edge added / one edge removed /
+	// a pendant vertex attached / two such edits.  The refinement then proceeds in waves (the distance partition from the
+	// perturbation): cells are shattered again while they are still queued, which graphs that are either symmetric or
+	// random never do.
+	KP := c.Pick(24, 160)
+	for fi := range fams {
+		fi := fi
+		if fams[fi].G.N < 8 || fams[fi].G.N > 64 {
+			continue
+		}
+		c.Unit("perturbed/"+fams[fi].Name, func() {
+			f := fams[fi]
+			for pk := 0; pk < 4; pk++ {
+				r := c.Rand("c01-perturb-"+f.Name, pk)
+				g := f.G.Copy()
+				name := f.Name
+				edits := 1
+				if pk == 3 {
+					edits = 2
+				}
+				for e := 0; e < edits; e++ {
+					kind := (pk + e) % 3
+					switch kind {
+					case 0, 1: // add a non-edge / remove an edge (first pair found from a random start)
+						want := kind == 1
+						a0, b0 := r.Intn(g.N), r.Intn(g.N)
+						done := false
+						for da := 0; da < g.N && !done; da++ {
+							for db := 0; db < g.N && !done; db++ {
+								a, b := (a0+da)%g.N, (b0+db)%g.N
+								if a != b && g.Has(a, b) == want {
+									if want {
+										g.Del(a, b)
+										name += fmt.Sprintf("-(%d,%d)", a, b)
+									} else {
+										g.Add(a, b)
+										name += fmt.Sprintf("+(%d,%d)", a, b)
+									}
+									done = true
+								}
+							}
+						}
+					case 2:
+						v := r.Intn(g.N)
+						g = g.AddVertex([]int{v})
+						name += fmt.Sprintf("+pendant(%d)", v)
+					}
+				}
+				k := KP
+				if g.N > 40 {
+					k = KP / 2
+				}
+				var aut *big.Int
+				if g.N <= 40 {
+					aut = iso.Automorphisms(g, nil).Order
+				}
+				if !checkClass(c, "perturbed", name, g, k, func(i int) *engine.Rng { return c.Rand("c01-perturb-perm-"+f.Name, pk*1000+i) }, aut) {
+					return
+				}
+				c.Obs("perturbed_symmetric_graphs_checked", 1)
+			}
+		})
+	}
+
+	// (c3) ALL circulant graphs C_n(S) for n = 10..14 (thorough: ..18) with ONE edge {0,d} toggled, for every d: regular
+	// or almost regular graphs whose refinement needs several rounds and whose search tree has depth >= 2 while the
+	// symmetry left inside the cells is small -- the classical hard inputs of partition refinement
+	maxCirc := c.Pick(14, 18)
+	KC := c.Pick(32, 64)
+	for n := 10; n <= maxCirc; n++ {
+		n := n
+		half := n / 2
+		nsets := 1 << uint(half)
+		chunk := 16
+		for lo := 1; lo < nsets; lo += chunk {
+			lo := lo
+			c.Unit(fmt.Sprintf("circulant-toggle/n=%d/%d", n, lo), func() {
+				for mask := lo; mask < lo+chunk && mask < nsets && !c.Stopped(); mask++ {
+					base := rg.New(n)
+					for v := 0; v < n; v++ {
+						for d := 1; d <= half; d++ {
+							if mask>>uint(d-1)&1 == 1 {
+								base.Add(v, (v+d)%n)
+							}
+						}
+					}
+					for d := 1; d <= half; d++ {
+						g := base.Copy()
+						if g.Has(0, d) {
+							g.Del(0, d)
+						} else {
+							g.Add(0, d)
+						}
+						name := fmt.Sprintf("circ%d(mask=%d)^(0,%d)", n, mask, d)
+						if !checkClass(c, "circulant-toggle", name, g, KC, func(i int) *engine.Rng { return c.Rand("c01-circ", (n*100000+mask*32+d)*128+i) }, nil) {
+							return
+						}
+						c.Obs("circulants_with_one_edge_toggled", 1)
+					}
+				}
+			})
+		}
 	}
 
 	// (d) seeded graphs: random small, regular, trees, unions, irregular graphs with big cells (n >= 21)
